@@ -58,6 +58,93 @@ func complitsOf(fn *ssa.Function, tname string) []map[string]ssa.Value {
 
 // srcField describes where a stored value comes from: (struct type, field) of a single field
 // load, "now" for the receive clock, or a free description.
+// nonEmptyAppendBase: somewhere in the expression tree of v a slice is built by append onto a base that is
+// not known to be empty (nil, x[:0], make(T, 0, n)): the result then starts with elements that do not come
+// from the appended field (make(T, n, m) + append is the classic slip: n zero elements first).
+func nonEmptyAppendBase(v ssa.Value) (string, bool) {
+	seen := map[ssa.Value]bool{}
+	var bad string
+	var emptyBase func(b ssa.Value, d int) bool
+	emptyBase = func(b ssa.Value, d int) bool {
+		if d > 6 {
+			return false
+		}
+		switch x := b.(type) {
+		case *ssa.Const:
+			return x.Value == nil
+		case *ssa.Slice:
+			hi, ok := constInt(x.High)
+			return ok && hi == 0 && x.Low == nil
+		case *ssa.MakeSlice:
+			n, ok := constInt(x.Len)
+			return ok && n == 0
+		case *ssa.ChangeType:
+			return emptyBase(x.X, d+1)
+		case *ssa.Phi:
+			for _, e := range x.Edges {
+				if !emptyBase(e, d+1) {
+					return false
+				}
+			}
+			return true
+		}
+		if o := ptrOrigin(b); o != b {
+			return emptyBase(o, d+1)
+		}
+		return false
+	}
+	var walk func(x ssa.Value, d int)
+	walk = func(x ssa.Value, d int) {
+		if x == nil || d > 8 || seen[x] || bad != "" {
+			return
+		}
+		seen[x] = true
+		if cl, ok := x.(*ssa.Call); ok && isCall(cl, "builtin append") {
+			if !emptyBase(cl.Call.Args[0], 0) {
+				// appending to the accumulator of a loop (phi of itself) is accumulation, not a copy
+				if ph, isPhi := cl.Call.Args[0].(*ssa.Phi); isPhi {
+					self := false
+					for _, e := range ph.Edges {
+						if e == ssa.Value(cl) {
+							self = true
+						}
+					}
+					if self {
+						okRest := true
+						for _, e := range ph.Edges {
+							if e != ssa.Value(cl) && !emptyBase(e, 0) {
+								okRest = false
+							}
+						}
+						if okRest {
+							goto operands
+						}
+					}
+				}
+				bad = exprString(cl.Call.Args[0], 0)
+				return
+			}
+		}
+	operands:
+		if in, ok := x.(ssa.Instruction); ok {
+			switch x.(type) {
+			case *ssa.Phi, *ssa.Call, *ssa.ChangeType, *ssa.Convert, *ssa.Slice, *ssa.MakeInterface:
+				for _, op := range in.Operands(nil) {
+					if *op != nil {
+						walk(*op, d+1)
+					}
+				}
+			case *ssa.UnOp:
+				if o := ptrOrigin(x); o != x {
+					walk(o, d+1)
+				}
+			}
+		}
+	}
+	walk(v, 0)
+	return bad, bad != ""
+}
+
 func srcField(v ssa.Value) string {
 	ls := loadsOf(v)
 	if len(ls) == 1 {
@@ -314,6 +401,9 @@ func c14(c *Ctx) {
 			encMap := map[string]string{} // pbField -> gsField
 			for pf, v := range e {
 				s := srcField(v)
+				if b, isBad := nonEmptyAppendBase(v); isBad {
+					r.Fail("encoder:"+P+"."+pf+":copied-onto-empty", enc.Pos(), "the value is appended onto "+b+", which is not known to be empty: the encoded "+pf+" would start with elements that are not the series'")
+				}
 				if strings.HasPrefix(s, T+".") {
 					encMap[pf] = strings.TrimPrefix(s, T+".")
 				} else if T == "Set" && pf == "Values" {
@@ -341,6 +431,9 @@ func c14(c *Ctx) {
 			decMap := map[string]string{} // gsField -> pbField
 			for gf, v := range d {
 				s := srcField(v)
+				if b, isBad := nonEmptyAppendBase(v); isBad {
+					r.Fail("decoder:"+T+"."+gf+":copied-onto-empty", dec.Pos(), "the value is appended onto "+b+", which is not known to be empty: the decoded "+gf+" would start with elements that were not sent")
+				}
 				switch {
 				case strings.HasPrefix(s, P+"."):
 					decMap[gf] = strings.TrimPrefix(s, P+".")
